@@ -88,7 +88,7 @@ WAYS = {
 def impl_leaf_result(t, doc):
     if t[0] == "null":
         return [True] * len(doc)
-    return T.build_cond(t)._filter(__import__("valida").data.Data(fresh(doc))).result
+    return T.build_cond(t).filter(fresh(doc)).result   # (public API only: private names may be refactored freely)
 
 
 def is_null_term(t):
